@@ -4,7 +4,7 @@
    truth.  `wf_history` is the environment assumption (what CPython delivers): per frame
    call . (suspend . call)* . final return, one code object per frame, and opcode/ground-truth consistency
    (`consistent`), which EXCLUDES the known finding class kf_raise_at_yield (Refuted/C02.v). *)
-From MT Require Import Types Tracer TracerFacts.
+From MT Require Import Types Tracer TracerFacts TracerOrder.
 
 (* Faithfulness, per call (= per frame), for every well-formed history and any interleaving of frames:
    the traces logged for frame f are exactly what the declarative description of that call prescribes — nothing
@@ -53,6 +53,75 @@ Theorem tracer_source_shape :
 Proof. repeat split; try reflexivity. Qed.
 Print Assumptions tracer_source_shape.
 
+
+(* ORDER OF COMPLETION (global): read oldest first, the log is exactly the sequence of completion events of the
+   history -- each finished traceable call once, with the trace the declarative description prescribes for the
+   events of its frame up to and including the completing event, in the order in which the calls finished. *)
+Theorem tracer_log_in_completion_order :
+  forall rate H, sampling rate = false -> wf_history H = true ->
+    rev (logged (run rate H)) = completion_events H.
+Proof. exact log_is_completion_sequence. Qed.
+Print Assumptions tracer_log_in_completion_order.
+
+(* what completion_events is (so that the statement above cannot be read vacuously) *)
+Theorem completion_events_meaning :
+  (forall H, completion_events H = flat_map (completion_at H) (seq 0 (List.length H)))
+  /\ (forall H i e f, nth_error H i = Some e -> completes e = Some f ->
+        completion_at H i = map (pair f) (expected_frame (proj f (firstn (S i) H))))
+  /\ (forall H i e, nth_error H i = Some e -> completes e = None -> completion_at H i = [])
+  /\ (forall f c sm op a, completes (EvReturn f c sm op a) = Some f <->
+        is_final sm = true /\ gated c = false /\ exists fn, c_func c = Some fn)
+  /\ (forall f c args d, completes (EvCall f c args d) = None) /\ (forall f c, completes (EvOther f c) = None).
+Proof.
+  split; [exact completion_events_indexed|]. split; [exact completion_at_unfold|]. split; [exact completion_at_none|].
+  split; [exact completes_iff|]. split; reflexivity.
+Qed.
+Print Assumptions completion_events_meaning.
+
+Theorem tracer_completion_logs_exactly_one :
+  forall rate H e f, sampling rate = false -> wf_history (H ++ [e]) = true -> completes e = Some f ->
+    exists t, expected_frame (proj f (H ++ [e])) = [t]
+              /\ logged (run rate (H ++ [e])) = (f, t) :: logged (run rate H).
+Proof. exact completion_logs_one. Qed.
+Print Assumptions tracer_completion_logs_exactly_one.
+
+Theorem tracer_noncompletion_logs_nothing :
+  forall rate H e, sampling rate = false -> wf_history (H ++ [e]) = true -> completes e = None ->
+    logged (run rate (H ++ [e])) = logged (run rate H).
+Proof. exact noncompletion_logs_nothing. Qed.
+Print Assumptions tracer_noncompletion_logs_nothing.
+
+Theorem tracer_completions_are_the_expected_frames :
+  forall rate H f t, sampling rate = false -> wf_history H = true ->
+    (In (f, t) (completion_events H) <-> expected_frame (proj f H) = [t]).
+Proof. exact completion_events_iff_expected. Qed.
+Print Assumptions tracer_completions_are_the_expected_frames.
+
+Theorem tracer_logs_each_frame_once :
+  forall rate H, sampling rate = false -> wf_history H = true -> NoDup (map fst (logged (run rate H))).
+Proof. exact logged_frames_nodup. Qed.
+Print Assumptions tracer_logs_each_frame_once.
+
+(* GLOBAL NO RESIDUE *)
+Theorem tracer_table_is_the_pending_frames :
+  forall rate H, sampling rate = false -> wf_history H = true ->
+    NoDup (map fst (live (run rate H)))
+    /\ (forall f, In f (map fst (live (run rate H))) <-> pending_frame (proj f H) = true)
+    /\ (forall f, lookup f (live (run rate H)) = partial_frame (proj f H)).
+Proof.
+  intros rate H Hs W. split; [apply live_keys_nodup|]. split; intros f.
+  - apply live_keys_are_pending; assumption.
+  - apply live_entry_is_partial_trace; assumption.
+Qed.
+Print Assumptions tracer_table_is_the_pending_frames.
+
+Theorem tracer_keeps_nothing_when_all_finished :
+  forall rate H, sampling rate = false -> wf_history H = true ->
+    (forall f, In f (frames_of H) -> pending_frame (proj f H) = false) ->
+    live (run rate H) = [].
+Proof. exact live_empty_when_all_finished. Qed.
+Print Assumptions tracer_keeps_nothing_when_all_finished.
+
 (* Non-vacuity: two interleaved generator frames and a coroutine; the history is well formed and the log is
    the expected one. *)
 Example ex_c02_nonvacuous :
@@ -70,4 +139,12 @@ Example ex_c02_nonvacuous :
   /\ logged_for 11 (run None H) = [Trace 7 [("a"%string, TCls cStr)] None (Some (TCls cStr))]
   /\ logged_for 12 (run None H) = [Trace 8 [] (Some (TCls cInt)) None]
   /\ live (run None H) = [].
+Proof. vm_compute. repeat split; reflexivity. Qed.
+
+(* Non-vacuity of the order theorems: three frames that finish in an order different from their start order *)
+Example ex_c02_order_nonvacuous :
+  wf_history ex_order_history = true
+  /\ rev (logged (run None ex_order_history)) = completion_events ex_order_history
+  /\ map fst (completion_events ex_order_history) = [21; 22; 20]%N
+  /\ live (run None ex_order_history) = [].
 Proof. vm_compute. repeat split; reflexivity. Qed.
